@@ -231,6 +231,9 @@ class SyncQueue(_queue.Queue):
         self.first_get = True
         self.worker = None
         self.lock = _threading.Lock()
+        self.gate = _threading.Event()      # closed gate: the worker is held before it handles the next item (a backlog builds up)
+        self.gate.set()
+        self.slow = 0.0                     # seconds of real time each item costs once the gate has been re-opened
         SyncQueue.registry.append(self)
 
     def put(self, item, *a, **kw):
@@ -243,18 +246,42 @@ class SyncQueue(_queue.Queue):
             if not self.first_get:
                 self.outstanding -= 1       # back for more: the previous item has been dealt with completely
             self.first_get = False
-        return super().get(*a, **kw)
+        item = super().get(*a, **kw)
+        self.gate.wait()
+        if self.slow:
+            _time.sleep(self.slow)
+        return item
 
     def busy(self):
-        return self.outstanding > 0 and self.worker is not None and self.worker.is_alive()
+        # (a held worker, and one that is working through its backlog after having been released by join(), is not waited
+        # for: whoever joins it waits - or does not, which is the point of that family)
+        return self.gate.is_set() and not self.slow and self.outstanding > 0 and self.worker is not None and self.worker.is_alive()
 
 
 class SyncThread(_threading.Thread):
+    registry = []
+
     def __init__(self, *a, **kw):
         super().__init__(*a, **kw)
+        self.queue = None
         for x in kw.get("args", ()):
             if isinstance(x, SyncQueue):
                 x.worker = self
+                self.queue = x
+        SyncThread.registry.append(self)
+
+    def join(self, timeout=None):
+        # whoever waits for the worker lets a held worker go: it now works through its backlog, slowly
+        if self.queue is not None and not self.queue.gate.is_set():
+            self.queue.slow = 0.03
+            self.queue.gate.set()
+        return super().join(timeout)
+
+
+def hold_decoders():
+    """From now on every decoder worker is held before its next item: frames queue up behind it."""
+    for q in SyncQueue.registry:
+        q.gate.clear()
 
 
 def sync_threads(max_wall=20.0):
@@ -338,6 +365,41 @@ class PendingTrack(MediaStreamTrack):
         await asyncio.get_event_loop().create_future()
 
 
+class _Ids:
+    """Deterministic stand-ins for uuid.uuid4 / random16 / random32 inside the peer-connection stack: the identifiers that end
+    up in SDP (cname, stream and track ids, SSRCs) and the SCTP tags / initial TSNs are the same in every world of every run."""
+
+    def __init__(self):
+        self.n = 0
+
+    def uuid4(self):
+        self.n += 1
+        return "00000000-0000-4000-8000-%012d" % self.n
+
+    def random32(self):
+        self.n += 1
+        return (0x10000000 + self.n * 0x01010101) & 0xFFFFFFFF
+
+    def random16(self):
+        self.n += 1
+        return (0x1000 + self.n * 0x0101) & 0xFFFF
+
+
+def _id_seams(ids):
+    """(module, attribute, replacement) - restored by PcWorld.close()."""
+    import aiortc.mediastreams as MS
+    import aiortc.rtcpeerconnection as PC
+    import aiortc.rtcrtpsender as TX
+    import aiortc.rtcsctptransport as SC
+    fake_uuid = types.SimpleNamespace(uuid4=ids.uuid4)
+    import aiortc.clock as CLK
+    # the o= line of every description carries the NTP second of its creation: a fixed one
+    fake_clock = types.SimpleNamespace(**{k: getattr(CLK, k) for k in dir(CLK) if not k.startswith("_")})
+    fake_clock.current_ntp_time = lambda: 3_900_000_000 << 32
+    return [(MS, "uuid", fake_uuid), (PC, "uuid", fake_uuid), (TX, "uuid", fake_uuid), (PC, "clock", fake_clock),
+            (TX, "random16", ids.random16), (TX, "random32", ids.random32), (SC, "random32", ids.random32)]
+
+
 class PcWorld:
     def __init__(self, auto=True, real_decoder_thread=False):
         global _current_network
@@ -345,10 +407,15 @@ class PcWorld:
         self.net = Network(self.loop, auto=auto)
         _current_network = self.net
         ICE.Connection = FakeConnection
+        self._saved = []
+        for mod, attr, repl in _id_seams(_Ids()):
+            self._saved.append((mod, attr, getattr(mod, attr)))
+            setattr(mod, attr, repl)
         if not real_decoder_thread:
             RX.threading = types.SimpleNamespace(Thread=_NoThread)
         elif real_decoder_thread == "sync":
             SyncQueue.registry = []
+            SyncThread.registry = []
             RX.threading = types.SimpleNamespace(Thread=SyncThread)
             RX.queue = types.SimpleNamespace(Queue=SyncQueue)
         self.pcs = []
@@ -395,8 +462,12 @@ class PcWorld:
                 pass
         finally:
             ICE.Connection = _REAL_CONNECTION
+            for mod, attr, orig in self._saved:
+                setattr(mod, attr, orig)
             RX.threading = _REAL_THREADING
             RX.queue = _REAL_QUEUE
+            for q in SyncQueue.registry:
+                q.gate.set()            # never leave a held worker behind
             SyncQueue.registry = []
             _current_network = None
             self.loop.uninstall()
